@@ -17,17 +17,23 @@ Definition inl_shl (r a : nid) (n : Z) := [(whole r, RBin BShl (rid a) (pynum n)
 Definition inl_shr (r a : nid) (n : Z) := [(whole r, RBin BShr (rid a) (pynum n))].
 Definition inl_not (r a : nid) := [(whole r, RUn UNot (rid a))].
 Definition inl_buf (r a : nid) := [(whole r, rid a)].
+(* getBitSelect: a 1-bit wire is a scalar net, its only bit is written as the bare name *)
+Definition bit_select (a : nid) (k : Z) : rexpr :=
+  if (snd a =? 1) && (k =? 0) then rid a else RBit (fst a) (snd a) (pynum k).
+(* a result that is not wider than the operand has nothing to replicate: `assign r = a;` *)
 Definition inl_signextend (r a : nid) :=
-  [(whole r, RConcat (RRepl (snd r - snd a) (RBit (fst a) (snd a) (pynum (snd a - 1)))) (rid a))].
+  if snd r <=? snd a then [(whole r, rid a)]
+  else [(whole r, RConcat (RRepl (snd r - snd a) (bit_select a (snd a - 1))) (rid a))].
 Definition inl_bin (o : binop) (r a b : nid) := [(whole r, RBin o (rid a) (rid b))].
 Definition inl_nbin (o : binop) (r a b : nid) := [(whole r, RUn UNot (RBin o (rid a) (rid b)))].
-Definition inl_mux2 (r sel s0 s1 : nid) := [(whole r, RCond (rid sel) (rid s1) (rid s0))].
+Definition inl_mux2 (r sel s0 s1 : nid) := [(whole r, RCond (RBin BAnd (rid sel) (RNum 1)) (rid s1) (rid s0))].
 Definition inl_addci (r a b ci : nid) := [(whole r, RBin BAdd (RBin BAdd (rid a) (rid b)) (rid ci))].
 Definition inl_smul (r a b : nid) := [(whole r, RBin BMul (RSigned (rid a)) (RSigned (rid b)))].
 Definition inl_equalconst (r a : nid) (v : Z) := [(whole r, RCond (RBin BEq (rid a) (pynum v)) (RNum 1) (RNum 0))].
 Definition inl_equal (r a b : nid) := [(whole r, RCond (RBin BEq (rid a) (rid b)) (RNum 1) (RNum 0))].
-Definition inl_range (r a : nid) (hi lo : Z) := [(whole r, RPart (fst a) hi lo)].
-Definition inl_bit (r a : nid) (k : Z) := [(whole r, RBit (fst a) (snd a) (pynum k))].
+Definition inl_range (r a : nid) (hi lo : Z) :=
+  if (snd a =? 1) && (hi =? 0) && (lo =? 0) then [(whole r, rid a)] else [(whole r, RPart (fst a) hi lo)].
+Definition inl_bit (r a : nid) (k : Z) := [(whole r, bit_select a k)].
 Definition inl_bits (a : nid) (bits : list nid) : list (rlval * rexpr) :=
   match bits with
   | [b] => [(whole b, rid a)]
@@ -44,10 +50,10 @@ Definition inl_nary (o : binop) (r : nid) (ins : list nid) :=
 Definition inl_nnary (o : binop) (r : nid) (ins : list nid) :=
   match ins with [] => [] | x :: t => [(whole r, RUn UNot (chain o (rid x) (map rid t)))] end.
 
-(* BodyReg: reg [w-1:0] rq = reset_value; always @(posedge clk) [if (r == 1) rq <= rv; else] [if (e == 1)] rq <= d; assign q = rq; *)
+(* BodyReg: reg [w-1:0] rq = reset_value; always @(posedge clk) [if (r == 1) rq <= rv; else] [if (e != 0)] rq <= d; assign q = rq; *)
 Definition body_reg_proc (rq d : nid) (e r : option nid) (rv : Z) : rstmt :=
   let load := RNba (whole rq) (rid d) in
-  let en := match e with Some e' => RIf (RBin BEq (rid e') (RNum 1)) load RSkip | None => load end in
+  let en := match e with Some e' => RIf (RBin BNe (rid e') (RNum 0)) load RSkip | None => load end in
   match r with
   | Some r' => RIf (RBin BEq (rid r') (RNum 1)) (RNba (whole rq) (pynum rv)) en
   | None => en
